@@ -5,6 +5,7 @@
 import Csvq.Lemmas.Keys
 import Csvq.Lemmas.Group
 import Csvq.Lemmas.Text
+import Csvq.Gen.KeyFacts
 namespace Csvq.C04
 open Csvq
 
@@ -171,6 +172,64 @@ theorem except_distinct_keys {κ ρ : Type} [DecidableEq κ] (a b : List (κ × 
 theorem intersect_distinct_keys {κ ρ : Type} [DecidableEq κ] (a b : List (κ × ρ)) :
     (intersectImpl false a b).map Prod.fst = firstOcc ((intersectImpl true a b).map Prod.fst) := by
   simp only [intersectImpl, if_true]; exact keepFirst_keys _
+
+/-! ## Tie to the source: the shape of the keys, regenerated from lib/query/utils.go on every run
+    (extract/keyfacts → Gen/KeyFacts.lean) -/
+
+/-- the tag a writer puts in front of its payload, following a pure delegation
+    (serializeDatetime → serializeDatetimeFromUnixNano) -/
+def genTag (w : String) : Option (List Nat) :=
+  match Csvq.Gen.keyTags.lookup w with
+  | some [] => if w = "serializeDatetime" then Csvq.Gen.keyTags.lookup "serializeDatetimeFromUnixNano" else none
+  | r => r
+
+/-- the rungs of `norm` in order, with the tag of the key each produces -/
+def modelLadder : List (String × List Nat) :=
+  [("IsNull", [91, tagOf .null, 93]), ("ToIntegerStrictly", [91, tagOf (.int 0), 93]),
+   ("ToFloat", [91, tagOf (.flt (.fin 0)), 93]), ("ToDatetime", [91, tagOf (.dt 0), 93]),
+   ("ToBoolean", [91, tagOf (.int 1), 93]),      -- a boolean-looking value is keyed as the integer 1 / 0
+   ("isString", [91, tagOf (.str []), 93]), ("else", [91, tagOf .null, 93])]
+
+/-- SerializeKey tries the conversions in the order of the model's `norm` (integer, float, datetime,
+    boolean, text; NULL first and last) and every rung writes the tag of the key `norm` produces there -/
+theorem gen_ladder_eq_model :
+    Csvq.Gen.keyLadderW.map (fun r => (r.1, (r.2.head?.bind genTag).getD [])) = modelLadder ∧
+    (∀ r ∈ Csvq.Gen.keyLadderW, ∀ w ∈ r.2, some w = r.2.head?) := by decide
+
+/-- with the strict-equal flag: one case per value type, each with the tag of the key `normStrict` gives -/
+theorem gen_strict_ladder_eq_model :
+    Csvq.Gen.strictLadderW.map (fun r => (r.1, (r.2.head?.bind genTag).getD []))
+      = [("String", [91, tagOf (.str []), 93]), ("Integer", [91, tagOf (.int 0), 93]),
+         ("Float", [91, tagOf (.flt (.fin 0)), 93]), ("Boolean", [91, tagOf (.bool true), 93]),
+         ("Ternary", [91, tagOf (.tern .T), 93]), ("Datetime", [91, tagOf (.dt 0), 93]),
+         ("default", [91, tagOf .null, 93])] := by decide
+
+/-- separator and escape rule are the model's (`serKeys`, `escKey`), and -0 is folded into 0 as in `norm` -/
+theorem gen_separator_and_escape :
+    Csvq.Gen.keySeparator = sepByte ∧ Csvq.Gen.keyEscaped = [sepByte, escByte] ∧
+    Csvq.Gen.keyEscapeByte = escByte ∧ Csvq.Gen.floatKeyNormalisesZero = true ∧
+    Csvq.Gen.keyStrictSwitch = "SerializeIdenticalKey(val) / SerializeKey(val,flags)" := by decide
+
+/-- the tags of different kinds of key differ (premise of `serKeys_inj`: a key's kind is read off its tag) -/
+theorem gen_tags_distinct :
+    ((["serializeNull", "serializeInteger", "serializeFloat", "serializeDatetime", "serializeString",
+       "serializeBoolean", "serializeTernary"].map genTag).eraseDups).length = 7 ∧
+    genTag "serializeString" = genTag "serializeCaseSensitiveString" := by decide
+
+/-- the payload of every writer is the one the model's `payload` describes: decimal text for integers,
+    floats and datetimes (UnixNano), escaped upper-cased trimmed text for strings (escaped trimmed text
+    under --strict-equal), T / F (/ U) for booleans and ternaries, nothing for NULL -/
+theorem gen_payloads_eq_ref :
+    Csvq.Gen.keyPayloads =
+      [("serializeNull", ""), ("serializeInteger", "WriteString:s"), ("serializeFloat", "WriteString:s"),
+       ("serializeDatetime", "->serializeDatetimeFromUnixNano(t.UnixNano())"),
+       ("serializeDatetimeFromUnixNano", "WriteString:value.Int64ToStr(t)"),
+       ("serializeString", "writeEscapedKeyString:strings.ToUpper(option.TrimSpace(s))"),
+       ("serializeCaseSensitiveString", "writeEscapedKeyString:option.TrimSpace(s)"),
+       ("serializeBoolean", "WriteString:\"T\";WriteString:\"F\""),
+       ("serializeTernary", "WriteString:\"T\";WriteString:\"F\";WriteString:\"U\"")] ∧
+    Csvq.Gen.keyLadder.lookup "ToBoolean" = some "serializeInteger(\"1\");serializeInteger(\"0\")" ∧
+    Csvq.Gen.keyLadder.lookup "ToFloat" = some "serializeFloat(floatKeyString(f.(*value.Float).Raw()))" := by decide
 
 /-! ## non-vacuity -/
 
